@@ -2,7 +2,7 @@
 (* Replay rows of harness/h_boot.cpp (real N = 1024 code on embedded key material) validated against RingScheme (C04, C09). *)
 (* For every row TLC recomputes the reduced model on the row's inputs and compares the observed phase (under the model's     *)
 (* keys) with the embedded model value, within Tol units of 2^-32 (FFT rounding; nothing else is approximate here).          *)
-EXTENDS RingScheme, Word32, Json, IOUtils
+EXTENDS RingScheme, Gates, Word32, Json, IOUtils
 CONSTANT Tol
 Rows == ndJsonDeserialize(IOEnv.TRACE)
 NRows == Len(Rows)
@@ -53,5 +53,26 @@ RowRot == LET row == R
               want == MulXai((aux + ExpSum(ee, NN)) % (2 * NP), Ramp)                 \* the property: phase multiplied by X^(sum e_i s_i)
               got == TPhase(Blind(start, BK, ee, 1))
           IN /\ got = want /\ \A q \in Idx : Near(Wd(row.ph[q + 1]), want[q]) /\ row.off <= Tol
-RowOK == i = 0 \/ CASE R.k = "boot" -> RowBoot [] R.k = "bootv" -> RowBootV [] R.k = "ext" -> RowExt [] R.k = "rot" -> RowRot [] OTHER -> FALSE
+\* ---- the gate functions themselves (bootsNAND ... bootsMUX) on the embedded key set: the concrete gate level of MC_MachineC, bound to the code ----
+GMU == Q \div 8
+GEnc(bit) == IF bit = 1 THEN GMU ELSE Md(0 - GMU)
+GCT(x) == LET m == [q \in 1..NN |-> x.m[q]] IN [a |-> m, b |-> Md(GEnc(x.bit) + x.e + Dot(m))]      \* encryption of x.bit with error x.e and mask x.m under the model key
+GTriv(mu) == [a |-> [q \in 1..NN |-> 0], b |-> Md(mu)]
+GAddMul(r, p, c) == [a |-> [q \in 1..NN |-> Md(r.a[q] + p * c.a[q])], b |-> Md(r.b + p * c.b)]
+GLin(gg, ca, cb) == GAddMul(GAddMul(GTriv(K(gg) * GMU), CA(gg), ca), CB(gg), cb)
+GGate(gg, ca, cb) == Boot(GLin(gg, ca, cb), GMU)
+GMux(ca, cb, cc) == LET u1 == BootWoKS(GAddMul(GAddMul(GTriv(0 - GMU), 1, ca), 1, cb), GMU)
+                        u2 == BootWoKS(GAddMul(GAddMul(GTriv(0 - GMU), -1, ca), 1, cc), GMU)
+                        s  == [a |-> [q \in 0..(KK * NP - 1) |-> Md(u1.a[q] + u2.a[q])], b |-> Md(u1.b + u2.b + GMU)]
+                    IN KeySwitch(s)
+RowGate == LET row == R
+               A == GCT(row.xa)  B == GCT(row.xb)  C == GCT(row.xc)
+               out == IF row.g = "MUX" THEN GMux(A, B, C) ELSE GGate(row.g, A, B)
+               want == PhaseL(out)
+               bit == IF row.g = "MUX" THEN MuxTT(row.xa.bit, row.xb.bit, row.xc.bit) ELSE TT(row.g, row.xa.bit, row.xb.bit)
+           IN /\ want = GEnc(bit)                                                       \* (model theorem of MC_MachineC, re-evaluated on this input)
+              /\ Near(row.ph, want)                                                      \* the real gate function returns a ciphertext with that phase
+              \* (masks are not compared: a one-unit FFT rounding before a flooring decomposition legitimately swaps in another noiseless row -
+              \*  same phase, different mask; see vlib/ringreplay.py)
+RowOK == i = 0 \/ CASE R.k = "boot" -> RowBoot [] R.k = "bootv" -> RowBootV [] R.k = "ext" -> RowExt [] R.k = "rot" -> RowRot [] R.k = "gate" -> RowGate [] OTHER -> FALSE
 =============================================================================
